@@ -71,13 +71,17 @@ CHECKS = {
 
 # session 4: what was added to each check (appended to technique / level text)
 ADDENDA = {
- 'C02': ('; Log-semiring runs of globally linear grammars whose constant rules carry a factor exp(-280) (all values shifted by exactly -280: the same iteration at another magnitude); non-linear rules with a factor no other rule mentions, written after the recursive edges',
+ 'C02': ('; Log-semiring runs of globally linear grammars whose constant rules carry a factor exp(-280) (all values shifted by exactly -280: the same iteration at another magnitude); non-linear rules with a factor no other rule mentions, written after the recursive edges; residuals against the certificate in units of 2^-40 for float64 runs with tol <= 1e-5 and tol = 0 (clause ErrorVanishesAsTolDoes); the history solve / add_rule / solve on one grammar object; mutual recursion with self-loops; every sum_products call of the repository\'s own tests validated against the driver machine (pytest plugin harness/tracer_sp.py)',
          ' Log runs at magnitude -280 (homogeneity of linear systems), judged after shifting back.'),
+ 'C01': ('; empty domains (an edge-less node over an empty domain contributes the factor 0); every factor held as a view at a non-zero storage offset of a larger table',
+         ''),
+ 'C07': ('; family disjoint: operands co-indexed on an index of disjoint-union type (at the top or inside a product, product-form operands) and on a further index met later',
+         ''),
  'C03': ('; signed cotangents (losses such as -Z, -log Z): enclosures of recursive gradients turn around for negative entries; rules with two edges on the same two nodes in opposite orders',
          ' Cotangent entries in {-2,-1,0,1,2}.'),
  'C06': ('; part axis_algebra: TLC enumerates EVERY pair of typed axis lists for a catalogue of index-type shapes (MC_AxisAlg; R3: typed lists are injective patterns, solutions of es = fs are the common support) -> Axis.unify / antiunify / stride / index / numel / fv / freshen / alpha on the real Axis objects -> TLC judge (Trace_AxisAlg, AxisAlg.tla): the unifier parametrises exactly the solution set of the equations, once each, and fails only when there is none; the generalisation instantiates to both operands; stride is the affine form of the index map; index inverts it',
          ' Axis algebra: all 1930 (quick: a seeded 700 of them) / all pairs of a larger catalogue (thorough) of axis-list pairs with shared or disjoint physical axes, plus seeded deeper nestings.'),
- 'C08': ('; histories on ONE semiring object: accumulators that are the very tensors from_int handed out, updated in place by add_, then the constants and identities again',
+ 'C08': ('; histories on ONE semiring object: accumulators that are the very tensors from_int handed out, updated in place by add_, then the constants and identities again; operands the operation has to broadcast (vector, row, column; also first); every semiring has solved a linear system in the process before the laws on the whole float range are observed',
          ''),
  'C09': ('; a and b drawing their PhysicalAxis objects from one typed pool (b names axes of a), the swap matrix a[(p,q),(q,p)] against one-hot right-hand sides; Log-semiring cycles of weight 1 - 2^-k for k up to the smallest subnormal (self-loop and 2-cycle; Semiring.solve, PatternedTensor.solve, multi_solve): least solution k ln 2 (LinSolve!LsNearOneOK)',
          ' 54 (quick) / ~650 (thorough) systems next to the radius of convergence in float32 and float64.'),
@@ -91,15 +95,15 @@ ADDENDA = {
          ''),
  'C15': ('; the same tree with identical subderivations built ONCE and used at several positions (shared FGGDerivation objects)',
          ''),
- 'C16': ('; the observed .type of every graph and of every rule right-hand side after every call; FactorGraph handles with set_ext and FactorGraph.from_graph in the heap machine',
+ 'C16': ('; the observed .type of every graph and of every rule right-hand side after every call; FactorGraph handles with set_ext and FactorGraph.from_graph in the heap machine; the empty domain among the bindable domains',
          ''),
- 'C17': ('; mode nt_named_like_term: a nonterminal of one grammar named like a terminal of the other',
-         ' 9 modes.'),
- 'C18': ('; the snapshot also holds process-wide state (autograd mode, default dtype, the constants fresh semiring objects hand out); a query that fails (start assignment outside the domain / no iteration budget) is part of the alphabet; a world whose nullary nonterminal is a structural zero in the first iteration; the reference run of every query on fresh objects is itself a judged history',
+ 'C17': ('; mode nt_named_like_term: a nonterminal of one grammar named like a terminal of the other; history_mutate (conjoin, edit a right-hand side in place, conjoin again); conflict_hidden (a harmless clash earlier in label order than a genuine terminal conflict)',
+         ' 11 modes.'),
+ 'C18': ('; the snapshot also holds process-wide state (autograd mode, default dtype, the constants fresh semiring objects hand out); a query that fails (start assignment outside the domain / no iteration budget) is part of the alphabet; a world whose nullary nonterminal is a structural zero in the first iteration; the reference run of every query on fresh objects is itself a judged history; == with copies taken before any query, contains / numberize / denumberize probes of every domain, tuple-valued FiniteDomains, an unused rule-less nonterminal',
          ' Alphabet of 16 queries: 256 (quick) / 4096 (thorough) histories.'),
  'C19': ('; vertex objects of several kinds (ints from 0, strings with the empty string, tuples with the empty tuple, floats): falsy vertices included; grammars in which two rules with different left-hand sides share ONE right-hand-side Graph object',
          ''),
- 'C20': ('; apply / replace or update the weights in place / apply again; factor pairs whose weights differ by 2^-20 in one entry (float32 and float64)',
+ 'C20': ('; apply / replace or update the weights in place / apply again; factor pairs whose weights differ by 2^-20 in one entry (float32 and float64); factors whose weights are differently laid-out views of one tensor; the empty domain in the binding machine',
          ''),
 }
 
